@@ -46,9 +46,11 @@ BlockTop(c, j) ==
     ELSE layers[j].top
 ColArea2(c) == Shoelace(c.nodes, 1)
 BlockVol2(c, j) == ColArea2(c) * (BlockTop(c, j) - layers[j].bottom)
+(* twice the layer's centre elevation: a layer record may give a centre that is not at mid-height (case field lctr2) *)
+LC2(j) == IF "lctr2" \in DOMAIN Cases[ci] THEN Cases[ci].lctr2[j] ELSE layers[j].bottom + layers[j].top
 (* twice the elevation of the block centre: mid-height of a truncated surface block, the layer centre otherwise *)
 BlockZ2(c, j) == IF layers[j].bottom < c.surf /\ c.surf <= layers[j].top THEN layers[j].bottom + c.surf
-                 ELSE layers[j].bottom + layers[j].top
+                 ELSE LC2(j)
 InLay(c, j) == c.surf > layers[j].bottom
 TotalVol2G == LET RECURSIVE S(_, _)
                   S(i, j) == IF i > Len(cols) THEN 0
@@ -70,7 +72,7 @@ Vertical(c, j) ==
           ELSE <<[kind |-> "atm", b1 |-> BN(layers[j], c.name), b2 |-> AtmName(c), area2 |-> ColArea2(c),
                   d1x2 |-> 2 * c.surf - BlockZ2(c, j), d2x2 |-> -1, cossign |-> -1]>>)
     ELSE <<[kind |-> "vert", b1 |-> BN(layers[j], c.name), b2 |-> BN(layers[j - 1], c.name), area2 |-> ColArea2(c),
-            d1x2 |-> 2 * layers[j].top - (layers[j].bottom + layers[j].top),
+            d1x2 |-> 2 * layers[j].top - LC2(j),
             d2x2 |-> BlockZ2(c, j - 1) - 2 * layers[j - 1].bottom, cossign |-> -1]>>
 RECURSIVE Verticals(_, _)
 Verticals(i, j) == IF i > Len(cols) THEN <<>> ELSE (IF InLay(cols[i], j) THEN Vertical(cols[i], j) ELSE <<>>) \o Verticals(i + 1, j)
